@@ -507,9 +507,12 @@ def walk_sequence(
 ) -> Iterable[Tuple[ast.AST]]:
     """Iterate over all sequences of nodes in scope that match a sequence of templates."""
     uncommon = set()
-    for node in walk(
-        scope, tuple({*constants.AST_TYPES_WITH_BODY, *constants.AST_TYPES_WITH_ORELSE})
-    ):
+    # walk() goes through the alternatives one after the other, so their order is that of the matches.
+    # A set of classes is ordered by memory address, which is another one in every process.
+    types_with_blocks = tuple(
+        dict.fromkeys((*constants.AST_TYPES_WITH_BODY, *constants.AST_TYPES_WITH_ORELSE))
+    )
+    for node in walk(scope, types_with_blocks):
         for body in [getattr(node, "body", []), getattr(node, "orelse", [])]:
             if not body:
                 continue
